@@ -321,3 +321,128 @@ pub proof fn lemma_selected_swaps<C: ContentAddrStore>(s: UnsealedState<C>, reqs
     lemma_filter_mem(items, swap_pred(s));
     assert forall|j: int| 0 <= j < reqs.len() implies is_swap_req(s, #[trigger] reqs[j]) by { assert(reqs.contains(reqs[j])); assert(swap_pred(s)(reqs[j])); }
 }
+
+// ---- settlement of the liquidity deposits of one pool (C15/C16)
+/// saturating sum of the first n entries
+pub open spec fn sat_sum(s: Seq<int>, n: int) -> int decreases n { if n <= 0 { 0 } else { sat128(sat_sum(s, n - 1) + s[n - 1]) } }
+pub open spec fn true_sum(s: Seq<int>, n: int) -> int decreases n { if n <= 0 { 0 } else { true_sum(s, n - 1) + s[n - 1] } }
+pub open spec fn out_vals(txs: Seq<Transaction>, w: int) -> Seq<int> { Seq::new(txs.len(), |i: int| txs[i].outputs@[w].value.0 as int) }
+pub open spec fn dep_weight(tx: Transaction) -> int { sat128(spec_isqrt(tx.outputs@[0].value.0 as int) * spec_isqrt(tx.outputs@[1].value.0 as int)) }
+pub open spec fn dep_weights(txs: Seq<Transaction>) -> Seq<int> { Seq::new(txs.len(), |i: int| dep_weight(txs[i])) }
+pub open spec fn imax2(a: int, b: int) -> int { if a >= b { a } else { b } }
+/// the divisor of the pro-rata split: the weight of the block's total, or the sum of the deposits' weights if that is larger
+pub open spec fn dep_divisor(deps: Seq<Transaction>) -> int {
+    let n = deps.len() as int;
+    imax2(sat128(spec_isqrt(sat_sum(out_vals(deps, 0), n)) * spec_isqrt(sat_sum(out_vals(deps, 1), n))), sat_sum(dep_weights(deps), n))
+}
+pub open spec fn deposit_legacy(network: NetID, height: BlockHeight) -> bool { (network == NetID::Mainnet || network == NetID::Testnet) && height.0 < 978392 }
+pub open spec fn deposits_pre(deps: Seq<Transaction>, k: PoolKey) -> bool {
+    &&& forall|i: int| 0 <= i < deps.len() ==> (#[trigger] deps[i]).outputs@.len() >= 2 && deps[i].outputs@[0].value.0 > 0 && deps[i].outputs@[1].value.0 > 0
+    &&& forall|i: int, j: int| 0 <= i < j < deps.len() ==> spec_txhash(#[trigger] deps[i]) != spec_txhash(#[trigger] deps[j])
+}
+/// the pool after the combined deposit (PoolState::deposit): a fresh or emptied pool starts at the deposited amounts
+pub open spec fn pool_deposited(p0: PoolState, p1: PoolState, tl: int, tr: int, minted: int) -> bool {
+    &&& p1.price_accum == p0.price_accum
+    &&& p0.liqs == 0 ==> minted == tl && p1.lefts as int == tl && p1.rights as int == tr && p1.liqs as int == tl
+    &&& p0.liqs != 0 ==> p1.liqs as int == sat128(p0.liqs + minted) && p1.lefts as int == sat128(p0.lefts + tl) && p1.rights as int == sat128(p0.rights + tr)
+}
+/// what a deposit request's first output becomes: the pool's liquidity token, its pro-rata share of what was minted
+pub open spec fn dep_coin(t: Transaction, k: PoolKey, minted: int, div: int, height: BlockHeight, c: CoinDataHeight) -> bool {
+    let o = t.outputs@[0];
+    c.height == height && c.coin_data.covhash == o.covhash && c.coin_data.additional_data == o.additional_data
+    && c.coin_data.denom == spec_liq_denom(k) && c.coin_data.value.0 as int == spec_multiply_frac(minted, dep_weight(t), div)
+}
+/// coins after settling the first n deposit requests: first output replaced as above, second output consumed, nothing else touched
+pub open spec fn deps_settled(c0: IMap<CoinID, CoinDataHeight>, c: IMap<CoinID, CoinDataHeight>, deps: Seq<Transaction>, n: int, k: PoolKey, minted: int, div: int, height: BlockHeight) -> bool {
+    &&& forall|id: CoinID| #[trigger] c.contains_key(id) <==> ((c0.contains_key(id) || exists|i: int| 0 <= i < n && id == cid(#[trigger] deps[i], 0)) && !(exists|i: int| 0 <= i < n && id == cid(#[trigger] deps[i], 1)))
+    &&& forall|i: int| 0 <= i < n ==> dep_coin(deps[i], k, minted, div, height, #[trigger] c[cid(deps[i], 0)])
+    &&& forall|id: CoinID| c.contains_key(id) && !(exists|i: int| 0 <= i < n && id == cid(#[trigger] deps[i], 0)) ==> #[trigger] c[id] == c0[id]
+}
+pub proof fn lemma_fold_sat(mapped: Seq<u128>, vals: Seq<int>, accs: Seq<u128>, k: int)
+    requires mapped.len() == vals.len(), accs.len() == mapped.len() + 1, accs[0] == 0, 0 <= k <= mapped.len(),
+             forall|i: int| 0 <= i < mapped.len() ==> (#[trigger] mapped[i]) as int == vals[i],
+             forall|i: int| 0 <= i < mapped.len() ==> (#[trigger] accs[i + 1]) as int == sat128(accs[i] + mapped[i])
+    ensures accs[k] as int == sat_sum(vals, k)
+    decreases k
+{
+    if k > 0 { lemma_fold_sat(mapped, vals, accs, k - 1); assert(accs[(k - 1) + 1] as int == sat128(accs[k - 1] + mapped[k - 1])); }
+}
+pub proof fn lemma_sat_sum_bounds(s: Seq<int>, n: int)
+    requires 0 <= n <= s.len(), forall|i: int| 0 <= i < s.len() ==> #[trigger] s[i] >= 0
+    ensures 0 <= sat_sum(s, n) <= u128::MAX, sat_sum(s, n) <= true_sum(s, n), true_sum(s, n) <= u128::MAX ==> sat_sum(s, n) == true_sum(s, n),
+            forall|i: int| 0 <= i < n ==> imin2(#[trigger] s[i], u128::MAX as int) <= sat_sum(s, n), true_sum(s, n) >= 0
+    decreases n
+{
+    if n > 0 { lemma_sat_sum_bounds(s, n - 1); }
+}
+pub open spec fn share_sum(t: int, ms: Seq<int>, d: int, n: int) -> int decreases n { if n <= 0 { 0 } else { share_sum(t, ms, d, n - 1) + spec_multiply_frac(t, ms[n - 1], d) } }
+/// C16: floor shares of t by weights whose sum does not exceed the divisor add up to at most t
+pub proof fn lemma_shares_le(t: int, ms: Seq<int>, d: int, n: int)
+    requires t >= 0, d > 0, 0 <= n <= ms.len(), forall|i: int| 0 <= i < ms.len() ==> #[trigger] ms[i] >= 0, true_sum(ms, n) <= d
+    ensures share_sum(t, ms, d, n) * d <= t * true_sum(ms, n), share_sum(t, ms, d, n) <= t, share_sum(t, ms, d, n) >= 0
+    decreases n
+{
+    if n > 0 {
+        let m = ms[n - 1];
+        assert(true_sum(ms, n - 1) >= 0) by { lemma_true_sum_nonneg(ms, n - 1); }
+        lemma_shares_le(t, ms, d, n - 1);
+        let q = (t * m) / d;
+        assert(t * m >= 0) by (nonlinear_arith) requires t >= 0, m >= 0;
+        vstd::arithmetic::div_mod::lemma_fundamental_div_mod(t * m, d);
+        vstd::arithmetic::div_mod::lemma_mod_bound(t * m, d);
+        assert(q * d <= t * m) by (nonlinear_arith) requires t * m == d * q + (t * m) % d, 0 <= (t * m) % d;
+        assert(q >= 0) by (nonlinear_arith) requires t * m == d * q + (t * m) % d, (t * m) % d < d, t * m >= 0, d > 0;
+        let sh = spec_multiply_frac(t, m, d);
+        assert(0 <= sh <= q);
+        assert(sh * d <= q * d) by (nonlinear_arith) requires sh <= q, d > 0;
+        let s0 = share_sum(t, ms, d, n - 1); let ts0 = true_sum(ms, n - 1);
+        assert((s0 + sh) * d <= t * (ts0 + m)) by (nonlinear_arith) requires s0 * d <= t * ts0, sh * d <= t * m;
+        assert(t * true_sum(ms, n) <= t * d) by (nonlinear_arith) requires true_sum(ms, n) <= d, t >= 0;
+        assert(share_sum(t, ms, d, n) <= t) by (nonlinear_arith) requires share_sum(t, ms, d, n) * d <= t * d, d > 0;
+    }
+}
+pub proof fn lemma_true_sum_nonneg(s: Seq<int>, n: int)
+    requires 0 <= n <= s.len(), forall|i: int| 0 <= i < s.len() ==> #[trigger] s[i] >= 0 ensures true_sum(s, n) >= 0 decreases n
+{ if n > 0 { lemma_true_sum_nonneg(s, n - 1); } }
+pub proof fn lemma_deps_settled_step(c0: IMap<CoinID, CoinDataHeight>, c: IMap<CoinID, CoinDataHeight>, deps: Seq<Transaction>, n: int, k: PoolKey, minted: int, div: int, height: BlockHeight, d: CoinDataHeight)
+    requires deps_settled(c0, c, deps, n, k, minted, div, height), 0 <= n < deps.len(), dep_coin(deps[n], k, minted, div, height, d),
+             forall|i: int, j: int| 0 <= i < j < deps.len() ==> spec_txhash(#[trigger] deps[i]) != spec_txhash(#[trigger] deps[j])
+    ensures deps_settled(c0, c.insert(cid(deps[n], 0), d).remove(cid(deps[n], 1)), deps, n + 1, k, minted, div, height)
+{
+    let a = cid(deps[n], 0); let b = cid(deps[n], 1);
+    let c2 = c.insert(a, d).remove(b);
+    assert(a != b);
+    assert forall|i: int, j: int| 0 <= i < deps.len() && 0 <= j < deps.len() implies cid(#[trigger] deps[i], 0) != cid(#[trigger] deps[j], 1) by {}
+    assert forall|i: int| 0 <= i < deps.len() && i != n implies cid(#[trigger] deps[i], 0) != a && cid(deps[i], 1) != b by {
+        if i < n { assert(spec_txhash(deps[i]) != spec_txhash(deps[n])); } else { assert(spec_txhash(deps[n]) != spec_txhash(deps[i])); }
+    }
+    assert forall|id: CoinID| #[trigger] c2.contains_key(id) <==> ((c0.contains_key(id) || exists|i: int| 0 <= i < n + 1 && id == cid(#[trigger] deps[i], 0)) && !(exists|i: int| 0 <= i < n + 1 && id == cid(#[trigger] deps[i], 1))) by {
+        if exists|i: int| 0 <= i < n + 1 && id == cid(#[trigger] deps[i], 0) { let i = choose|i: int| 0 <= i < n + 1 && id == cid(#[trigger] deps[i], 0); if i < n { assert(0 <= i < n && id == cid(deps[i], 0)); } }
+        if exists|i: int| 0 <= i < n && id == cid(#[trigger] deps[i], 0) { let i = choose|i: int| 0 <= i < n && id == cid(#[trigger] deps[i], 0); assert(0 <= i < n + 1 && id == cid(deps[i], 0)); }
+        if exists|i: int| 0 <= i < n + 1 && id == cid(#[trigger] deps[i], 1) { let i = choose|i: int| 0 <= i < n + 1 && id == cid(#[trigger] deps[i], 1); if i < n { assert(0 <= i < n && id == cid(deps[i], 1)); } }
+        if exists|i: int| 0 <= i < n && id == cid(#[trigger] deps[i], 1) { let i = choose|i: int| 0 <= i < n && id == cid(#[trigger] deps[i], 1); assert(0 <= i < n + 1 && id == cid(deps[i], 1)); }
+        if id == a { assert(0 <= n < n + 1 && id == cid(deps[n], 0)); }
+        if id == b { assert(0 <= n < n + 1 && id == cid(deps[n], 1)); }
+    }
+    assert forall|i: int| 0 <= i < n + 1 implies dep_coin(deps[i], k, minted, div, height, #[trigger] c2[cid(deps[i], 0)]) by {
+        if i < n { assert(cid(deps[i], 0) != a); }
+    }
+    assert forall|id: CoinID| c2.contains_key(id) && !(exists|i: int| 0 <= i < n + 1 && id == cid(#[trigger] deps[i], 0)) implies #[trigger] c2[id] == c0[id] by {
+        assert(id != a) by { if id == a { assert(0 <= n < n + 1 && id == cid(deps[n], 0)); } }
+        assert(!(exists|i: int| 0 <= i < n && id == cid(#[trigger] deps[i], 0))) by {
+            if exists|i: int| 0 <= i < n && id == cid(#[trigger] deps[i], 0) { let i = choose|i: int| 0 <= i < n && id == cid(#[trigger] deps[i], 0); assert(0 <= i < n + 1 && id == cid(deps[i], 0)); } }
+    }
+}
+pub open spec fn empty_pool() -> PoolState { PoolState { lefts: 0, rights: 0, price_accum: 0, liqs: 0 } }
+pub open spec fn pool_or_empty(pools: Map<PoolKey, PoolState>, k: PoolKey) -> PoolState { if pools.contains_key(k) { pools[k] } else { empty_pool() } }
+/// C15/C16: the deposits of one pool settled: reserves take the (saturating) totals of both sides, `minted` liquidity is recorded,
+/// every request's first output becomes its pro-rata share of `minted` and its second output is consumed; the shares add up to at most `minted`
+pub open spec fn deposits_result(pools0: Map<PoolKey, PoolState>, c0: IMap<CoinID, CoinDataHeight>, deps: Seq<Transaction>, k: PoolKey, height: BlockHeight, legacy: bool,
+                                 pools1: Map<PoolKey, PoolState>, c1: IMap<CoinID, CoinDataHeight>, minted: int) -> bool {
+    let n = deps.len() as int;
+    &&& 0 <= minted <= u128::MAX
+    &&& pools1.dom() == pools0.dom().insert(k) && (forall|k2: PoolKey| k2 != k && pools0.contains_key(k2) ==> #[trigger] pools1[k2] == pools0[k2])
+    &&& pool_deposited(pool_or_empty(pools0, k), pools1[k], sat_sum(out_vals(deps, 0), n), sat_sum(out_vals(deps, 1), n), minted)
+    &&& !legacy ==> deps_settled(c0, c1, deps, n, k, minted, dep_divisor(deps), height)
+    &&& share_sum(minted, dep_weights(deps), dep_divisor(deps), n) <= minted
+}
